@@ -78,7 +78,7 @@ Notation TT := the_tabs.
 Lemma nfd_find_some : forall c d,
   PositiveMap.find (ckey c) (t_nfd TT) = Some d -> In (c, d) gen_nfd.
 Proof.
-  intros c d H. simpl in H. unfold nfd_map in H.
+  intros c d H. change (t_nfd TT) with nfd_map in H. unfold nfd_map in H.
   apply (fold_add_find _ _ (fun kv : N * list N => ckey (fst kv)) (fun kv => snd kv)) in H.
   destruct H as [(e & He & Hk & Hv) | H].
   - destruct e as [c' d']. simpl in Hk, Hv. apply ckey_inj in Hk. subst c' d'. exact He.
@@ -104,7 +104,7 @@ Proof. vm_compute. reflexivity. Qed.
 Lemma comp_find_some : forall a b x, b < 2097152 ->
   PositiveMap.find (pair_key a b) (t_comp TT) = Some x -> In (a, b, x) gen_comp.
 Proof.
-  intros a b x Hb H. simpl in H. unfold comp_map in H.
+  intros a b x Hb H. change (t_comp TT) with comp_map in H. unfold comp_map in H.
   rewrite (fold_left_ext _ _ _
              (fun m (r : N * N * N) => PositiveMap.add (pair_key (fst (fst r)) (snd (fst r))) (snd r) m)) in H.
   2:{ intros m [[a0 b0] c0]. reflexivity. }
